@@ -9,10 +9,10 @@ def J(harness, defines=(), wall=600, markers=(1,), **kw):
 CHECKS = {}
 
 CHECKS['C02'] = {
-    'jobs': {'quick': [J('c02_clock.cpp', ['K=3'], wall=240, markers=(1, 2, 3))],
+    'jobs': {'quick': [J('c02_clock.cpp', ['K=3'], wall=240, markers=(1, 2, 3)), J('c02_clock.cpp', ['K=2', 'TIES'], wall=120, markers=(1, 3))],
              'thorough': [J('c02_clock.cpp', ['K=4'], wall=1500, markers=(1, 2, 3))]},
     'opts': {'check_nsw': True},
-    'bounds': {'quick': 'programs of K=3 ops over {nop, arm timer at now+d, arm timer at absolute t, post, stop}, 3 timers, '
+    'bounds': {'quick': 'programs of K=3 ops over {nop, arm timer at now+d, arm timer at absolute t, post, stop, cancel the newest pending timer}, 3 timers, '
                         'd and t symbolic 64-bit in [-2^40, 2^40] ns, any split of the ops between outside run() and inside handlers',
                'thorough': 'same with K=4'},
     'outside': ['|offset| > 2^40 ns', 'more than K ops', 'more than one outstanding wait per timer (unsupported by the API)'],
@@ -22,7 +22,7 @@ CHECKS['C02'] = {
 
 CHECKS['C03'] = {
     'jobs': {'quick': [J('c03_timers.cpp', ['K=3', 'NT=2'], wall=280, markers=(1, 2, 3)),
-                       J('c03_timers.cpp', ['K=2', 'NT=2', 'TIES'], wall=120, markers=(1, 2, 3)),
+                       J('c03_timers.cpp', ['K=3', 'NT=2', 'TIES'], wall=200, markers=(1, 2, 3)),
                        J('c03_timers.cpp', ['K=2', 'NT=2', 'EXPIRED'], wall=120, markers=(1, 2))],
              'thorough': [J('c03_timers.cpp', ['K=4', 'NT=2'], wall=1700, markers=(1, 2, 3)), J('c03_timers.cpp', ['K=3', 'NT=3'], wall=600, markers=(1, 2, 3)),
                           J('c03_timers.cpp', ['K=3', 'NT=2', 'TIES'], wall=600, markers=(1, 2, 3)), J('c03_timers.cpp', ['K=3', 'NT=2', 'EXPIRED'], wall=600, markers=(1, 2))]},
@@ -88,9 +88,9 @@ CHECKS['C15'] = {
 CHECKS['C11'] = {
     'jobs': {'quick': [J('c11_registry.cpp', ['K=2', 'OBJSET=0'], wall=280, markers=(1, 2))],
              'thorough': [J('c11_registry.cpp', ['K=3', 'OBJSET=1'], wall=1700, markers=(1, 3)), J('c11_registry.cpp', ['K=3', 'OBJSET=2'], wall=1700, markers=(1, 2))]},
-    'bounds': {'quick': 'every sequence of K=2 operations from {open v4/v6, bind (8 endpoint forms: explicit, port 0, privileged, second address, wildcard v4/v6, foreign, v6), close, destroy+recreate, '
-                        'move-construct, listen} over 2 TCP sockets, 1 acceptor and 2 UDP sockets of a node with two IPv4 and one IPv6 address; ephemeral counter at 2000 or about to wrap; '
-                        'then datagram probes to 6 endpoints and a connect probe from a second node, accepted socket closed and acceptor re-probed',
+    'bounds': {'quick': 'every sequence of K=2 operations from {open v4/v6, bind (9 endpoint forms: explicit, port 0, privileged, second address, wildcard v4/v6, foreign, v6, the port the ephemeral counter points at), close, destroy+recreate, '
+                        'move-construct, listen} over 2 TCP sockets, 1 acceptor and 2 UDP sockets of a node with two IPv4 and one IPv6 address; ephemeral counter at 2000 or about to wrap; helper sockets hold port 2001 in both protocols (an ephemeral search may have to skip two ports); '
+                        'then datagram probes to 6 endpoints and a connect probe from a second node, the accepted socket moved, closed and the acceptor re-probed',
                'thorough': 'K=3 over {TCP socket, acceptor} and over {2 UDP sockets}'},
     'outside': ['bind on an already bound socket (unsupported use)', 'longer histories'],
     'assumptions': ['bind is only called on sockets that are not bound'],
@@ -178,7 +178,7 @@ CHECKS['C20'] = {
                           J('c05_tcp.cpp', ['LEN=5', 'LOSS=0', 'DIR=1', 'MTU=3000'], wall=120, markers=(1, 2)),
                           J('c08_udp.cpp', ['SCEN=3'], wall=120, markers=(1, 2, 3))]},
     'bounds': {'quick': 'TCP: path MTU 2 and 3000 reported by the configuration, 5 symbolic bytes, both directions (connector sends / accepted socket sends), all write chunkings and layouts of c05_tcp; a probe on the route checks '
-                        'every payload segment <= MTU, content and order checked by the reader. UDP: MTU in {2,3,1475}, datagram length around the limit, don\'t-fragment never touched / set / set then cleared',
+                        'every payload segment <= MTU, content and order checked by the reader. UDP: MTU in {2,3,1475}, datagram length around the limit, don\'t-fragment never touched / set / set then cleared; then two destinations with path MTUs 1475 and 500 and 1000-byte datagrams sent back to back in either order; TCP jobs also move the connector after establishment',
                'thorough': 'MTU 3 with 8 bytes and segment faults (retransmitted segments are checked too)'},
     'outside': ['per-address-pair MTU tables with more than two nodes', 'MTU changing during a connection (the property fixes it at connect time)'],
     'assumptions': [],
@@ -197,7 +197,8 @@ CHECKS['C12'] = dict(CHECKS['C04'])
 CHECKS['C12'] = {
     'jobs': {'quick': [J('c04_abort.cpp', ['KMAX=10'], wall=280, markers=(1, 2, 3), opts={'max_instr': 3000000}),
                        J('c05_tcp.cpp', ['LEN=5', 'LOSS=2', 'PROGRESS=0', 'DIR=0'], wall=200, markers=(1, 2)),
-                       J('c05_tcp.cpp', ['LEN=4', 'LOSS=0', 'DIR=0', 'MOVES'], wall=200, markers=(1, 2, 5))],
+                       J('c05_tcp.cpp', ['LEN=4', 'LOSS=0', 'DIR=0', 'MOVES'], wall=200, markers=(1, 2, 5)),
+                       J('c03_timers.cpp', ['K=3', 'NT=2', 'TIES'], wall=200, markers=(1, 2, 3))],
              'thorough': [J('c04_abort.cpp', ['KMAX=16'], wall=900, markers=(1, 2, 3), opts={'max_instr': 3000000}),
                           J('c05_tcp.cpp', ['LEN=8', 'LOSS=2', 'PROGRESS=0', 'DIR=0'], wall=900, markers=(1, 2))]},
     'bounds': CHECKS['C04']['bounds'],
@@ -206,10 +207,10 @@ CHECKS['C12'] = {
 }
 
 CHECKS['C19'] = {
-    'jobs': {'quick': [J('c19_pcap.cpp', ['LEN=4'], wall=200, markers=(1, 2))],
+    'jobs': {'quick': [J('c19_pcap.cpp', ['LEN=5'], wall=200, markers=(1, 2))],
              'thorough': [J('c19_pcap.cpp', ['LEN=8'], wall=900, markers=(1, 2))]},
-    'bounds': {'quick': '1-2 UDP datagrams (1-3 symbolic bytes, both directions) and one TCP connection carrying 4 symbolic bytes in 2-byte segments with the first segment passed or dropped (retransmission), then closed; '
-                        'network latency 1 ms or 1.5 s (timestamps across a second boundary); the capture is re-read by an independent parser: file header, one record per probe-observed transmission in order, timestamps, lengths, '
+    'bounds': {'quick': '1-2 UDP datagrams (1-3 symbolic bytes, both directions) and one TCP connection carrying 5 symbolic bytes in segments of 4 and 1 bytes with each of the first two segments passed or dropped (retransmissions of first and non-first segments), then closed; '
+                        'network latency 1 ms, 1.5 s or 4295 s (timestamps across a second boundary and beyond 2^32 microseconds); the capture is re-read by an independent parser: file header, one record per probe-observed transmission in order, timestamps, lengths, '
                         'IPv4/UDP/TCP header fields, sequence numbers, payload bytes',
                'thorough': '8 TCP bytes'},
     'outside': ['IPv6 traffic (the property is about IPv4)', 'several connections', 'more records than ~12'],
@@ -230,9 +231,9 @@ CHECKS['C16'] = {
 CHECKS['C18'] = {
     'jobs': {'quick': [J('c18_proxy.cpp', [], wall=280, markers=(1, 2, 3), opts={'max_instr': 30000000})],
              'thorough': [J('c18_proxy.cpp', [], wall=900, markers=(1, 2, 3), opts={'max_instr': 30000000})]},
-    'bounds': {'quick': 'one request of 7 kinds (literal host:port; named host resolved through the simulated resolver, other method, query; unresolvable name; refused port; default port 80 with nobody listening; '
+    'bounds': {'quick': 'one request of 8 kinds (literal host:port; a path and query containing colons; named host resolved through the simulated resolver, other method, query; unresolvable name; refused port; default port 80 with nobody listening; '
                         'relative URI; literal with extra header and Host) or two pipelined requests to the same origin (3 pairs); the byte stream cut into up to 3 writes at 5 candidate positions, back to back or 10 ms apart; '
-                        'the origin (in the harness) records what it receives and answers distinct fixed responses; then a second client, then stop() and a refused connect',
+                        'the origin (in the harness) records what it receives and answers distinct fixed responses; then a second client (whose origin must see exactly its own request), then stop() and a refused connect',
                'thorough': 'same space (exhaustive already)'},
     'outside': ['IPv6 literals', 'requests to different origins on one client connection (unsupported by the proxy: TODO in the source)', 'large bodies'],
     'assumptions': ['printf/formatting is stubbed'],
@@ -243,7 +244,7 @@ CHECKS['C17'] = {
                        J('c17_socks.cpp', ['MODE=1', 'SMALL'], wall=280, markers=(1, 2), opts={'max_instr': 30000000})],
              'thorough': [J('c17_socks.cpp', ['MODE=0'], wall=600, markers=(1, 2, 3), opts={'max_instr': 30000000}),
                           J('c17_socks.cpp', ['MODE=1'], wall=1700, markers=(1, 2), opts={'max_instr': 30000000})]},
-    'bounds': {'quick': 'valid: v5 CONNECT by IPv4 / by host name and v4 CONNECT to a reachable, refusing or unresolvable target, 4 symbolic payload bytes relayed and answered (xor 0x55) by the target, request and payload each cut in up to 2 writes; '
+    'bounds': {'quick': 'valid: v5 CONNECT by IPv4 / by host name (also a 200-character name) and v4 CONNECT to a reachable, refusing or unresolvable target, one case where the target answers with 4 kB (more than a congestion window), 4 symbolic payload bytes relayed and answered (xor 0x55) by the target, request and payload each cut in up to 2 writes; '
                         'reply codes and command counters checked. malformed: SOCKS4 or 5 server, every negotiation byte symbolic (version, method count from {0,1,2,255}, methods, 9/10 request bytes; in the quick tier: SOCKS5 only, the 4 bytes the parser branches on symbolic and address/port from a small alphabet), 0 or 4 trailing symbolic bytes (quick; 0/2/4 and 3 cut patterns in thorough), '
                         'early end-of-file after 40 ms, while a well-behaved client negotiates and exchanges 4 bytes through the same proxy',
                'thorough': 'same harness, larger wall budget'},
